@@ -324,6 +324,18 @@ def run_case(spec):
            'treatment_share_range': (0.1, 0.7), 'budget_range': None, 'treatment_geos_range': (1, 4),
            'control_geos_range': (1, 5), 'n_geos_max': 6, 'n_pretest_max': 31, 'n_designs': 5,
            'rho_max': 0.96, 'sig_level': 0.81, 'power_level': 0.71, 'min_corr': 0.91, 'flevel': 0.96}
+    # equality must follow the current field values (the dataclass is mutable): compare, assign, compare again
+    m = P(**dict(valid))
+    _ = (m == b)
+    f_mut = r.choice(FIELDS)
+    setattr(m, f_mut, alt[f_mut])
+    counters['equality_checked'] += 2
+    if m == b:
+      violations.append({'clause': 'equality', 'mech': 'param-eq-after-assignment',
+                         'detail': 'after assigning %s=%r the object still compares equal to one holding the old value' % (f_mut, alt[f_mut])})
+    if not (m == P(**dict(valid, **{f_mut: alt[f_mut]}))):
+      violations.append({'clause': 'equality', 'mech': 'param-eq-after-assignment',
+                         'detail': 'after assigning %s=%r the object is unequal to a fresh one with the same field values' % (f_mut, alt[f_mut])})
     for f in FIELDS:
       c = P(**dict(valid, **{f: alt[f]}))
       counters['equality_checked'] += 1
